@@ -77,8 +77,10 @@ CLAIMED = {
     "C01": ("deductive verification per broker operation against an abstract per-element view (waiting/delayed/held/dead) "
             "with quantified loop invariants; cancellation explored at every await (yield points)",
             "Proof for the in-memory broker that ack removes, nack dead-letters, enqueue places the message in exactly "
-            "one container chosen by its due time, requeue replaces the held message, and that a cancelled single-effect "
-            "operation leaves the old or the new state; reject (F01a) and a cancelled requeue (F01b) are known findings.",
+            "one container chosen by its due time, requeue replaces the held message, that a cancelled single-effect "
+            "operation leaves the old or the new state, and that queue_declare leaves an existing queue (every message in "
+            "all four places) and every other queue as they were while flush/delete touch the named queue only; "
+            "reject (F01a) and a cancelled requeue (F01b) are known findings.",
             "Well-behaved clients (distinct ids, actions only on held messages) are preconditions; one queue object per "
             "operation; interleaving with other tasks beyond cancellation is not explored; Redis/RabbitMQ brokers: see level note "
             "in evidence (command-model contracts where built)."),
